@@ -9,10 +9,10 @@ Specification side (TLC):
     volume; Force Index (1,1); EMV (2,-1)).
   * spec/Rules.tla: Dimensional - every comparison atom of every documented Buy/Sell rule compares quantities of equal degree,
     or a quantity with the literal 0.
-Code side: the real indicators are run on every word TLC printed and on the same word with the prices multiplied by 4 and,
-separately, the volumes by 8; each output must equal the original output times 4^dp resp. 8^dv BIT FOR BIT (IEEE arithmetic
+Code side: the real indicators are run on every word TLC printed and on the same word with the prices multiplied by 4 and by 2^-10 and,
+separately, the volumes by 8 and by 2^-12; each output must equal the original output times 4^dp resp. 8^dv BIT FOR BIT (IEEE arithmetic
 is exactly scale-covariant for powers of two).  Every catalogued strategy, compound and decorator is run on seeded valid
-OHLCV series and on the scaled series (prices x 2^3, x 2^-2, volumes x 2^5): the recommendations must be identical."""
+OHLCV series and on the scaled series (prices x 2^3, x 2^-12, volumes x 2^5, x 2^-20): the recommendations must be identical."""
 import concurrent.futures
 import json
 import os
@@ -27,9 +27,11 @@ import rulesgen
 import vlib
 
 PID = "C18"
-SQ_DEG = {"std^2": (2, 0), "(upper-middle)^2": (2, 0), "(middle-lower)^2": (2, 0), "upper+lower": (1, 0), "ui^2": (0, 0),
-          "width^2": (0, 0), "(%b-1/2)^2": (0, 0)}
+SQ_DEG = F.SQ_DEG
 PRICE_F, VOL_F = 4.0, 8.0
+# (variant, scaled quantity, factor): up and down - an absolute tick or threshold only bites when the unit gets small
+VARIANTS = [(1, "price", 4.0), (2, "volume", 8.0), (3, "price", 2.0 ** -10), (4, "volume", 2.0 ** -12)]
+NV = 5
 
 
 def tla_module(items):
@@ -130,13 +132,15 @@ def indicators_part(tier, V, machinery):
             for cid, (ii, o) in enumerate(cases):
                 it = items[ii]
                 unit = 1e8 if it["entry"].get("note") == "volume unit 100000000" else 1.0
-                for variant, pf, vf in ((0, 1.0, 1.0), (1, PRICE_F, 1.0), (2, 1.0, VOL_F)):
-                    if variant == 2 and "volume" not in it["inputs"]:
+                for variant, what, fac in [(0, None, 1.0)] + VARIANTS:
+                    pf = fac if what == "price" else 1.0
+                    vf = fac if what == "volume" else 1.0
+                    if what == "volume" and "volume" not in it["inputs"]:
                         continue
-                    if variant == 1 and all(n == "volume" for n in it["inputs"]):
+                    if what == "price" and all(n == "volume" for n in it["inputs"]):
                         continue
                     cols = [[float(t[j]) * (vf * unit if it["inputs"][j] == "volume" else pf) for t in o["w"]] for j in range(len(it["inputs"]))]
-                    f.write(json.dumps({"id": cid * 3 + variant, "pipe": it["entry"]["pipe"], "cfg": it["cfg"], "in": cols}) + "\n")
+                    f.write(json.dumps({"id": cid * NV + variant, "pipe": it["entry"]["pipe"], "cfg": it["cfg"], "in": cols}) + "\n")
                     nreq += 1
         out = os.path.join(wd, "cases.out")
         p = vlib.harness_cmd(["replay-formula", path, out], timeout=3000)
@@ -153,13 +157,14 @@ def indicators_part(tier, V, machinery):
         for cid, (ii, o) in enumerate(cases):
             it = items[ii]
             pipe = it["entry"]["pipe"]
-            base = res[cid * 3]
+            base = res[cid * NV]
             if base.get("err"):
                 V.violation({"indicator": pipe, "symptom": "crash"}, "%s%s on %s: %s" % (pipe, it["cfg"], o["w"], base["err"]), {"word": o["w"]})
                 continue
             b = [[F.parse_float(x) for x in col] for col in base["outs"]]
-            for variant, what, fac, di in ((1, "price", PRICE_F, 0), (2, "volume", VOL_F, 1)):
-                r = res.get(cid * 3 + variant)
+            for variant, what, fac in VARIANTS:
+                di = 0 if what == "price" else 1
+                r = res.get(cid * NV + variant)
                 if r is None:
                     continue
                 if r.get("err"):
@@ -171,20 +176,20 @@ def indicators_part(tier, V, machinery):
                     k = fac ** deg
                     if len(col) != len(scol):
                         key = (pipe, oi, what, tuple(it["cfg"]))
-                        bad.setdefault(key, (o["w"], -1, len(col), len(scol), deg))
+                        bad.setdefault(key, (o["w"], -1, len(col), len(scol), deg, fac))
                         continue
                     for j, (x, y) in enumerate(zip(col, scol)):
                         compared += 1
                         if not same(x * k, y):
                             key = (pipe, oi, what, tuple(it["cfg"]))
                             if key not in bad or len(o["w"]) < len(bad[key][0]):
-                                bad[key] = (o["w"], j, x, y, deg)
-        for (pipe, oi, what, cfg), (w, j, x, y, deg) in sorted(bad.items()):
+                                bad[key] = (o["w"], j, x, y, deg, fac)
+        for (pipe, oi, what, cfg), (w, j, x, y, deg, fac) in sorted(bad.items()):
             V.violation({"indicator": pipe, "out": oi, "scaled": what, "cfg": json.dumps(list(cfg))},
                         "%s%s output %d is not homogeneous of degree %d in the %s: on the inputs %s = %s value %d is %r, with every %s "
                         "multiplied by %g it is %r (expected %r)" %
-                        (pipe, list(cfg), oi, deg, what, cat[pipe]["inputs"], w, j, x, what, PRICE_F if what == "price" else VOL_F, y,
-                         x * ((PRICE_F if what == "price" else VOL_F) ** deg) if isinstance(x, float) else None),
+                        (pipe, list(cfg), oi, deg, what, cat[pipe]["inputs"], w, j, x, what, fac, y,
+                         x * (fac ** deg) if isinstance(x, float) else None),
                         {"pipe": pipe, "cfg": list(cfg), "word": w, "output": oi, "scaled": what})
         return {"indicator_entries": len({it["entry"]["pipe"] for it in items}), "indicator_words": len(cases), "indicator_real_runs": nreq,
                 "indicator_values_compared": compared, "model_homogeneity_theorems": nth}
@@ -193,14 +198,15 @@ def indicators_part(tier, V, machinery):
 
 
 def strategies_part(tier, V, machinery, rng):
-    cat = [e for e in pe.catalogue() if e["class"] in ("strategy", "compound")]
+    cat = [e for e in pe.catalogue() if e["class"] in ("strategy", "compound") or e["name"].startswith("aux.Outcome")]
     only = os.environ.get("VERIF_ONLY")
     if only:
         import re
         cat = [e for e in cat if re.search(only, e["name"])]
     reqs, meta = [], []
     seeds = [11, 12] if tier == "quick" else [11, 12, 13, 14, 15]
-    scales = [(8.0, 1.0), (0.25, 1.0), (1.0, 32.0)] if tier == "quick" else [(8.0, 1.0), (0.25, 1.0), (1.0, 32.0), (1.0, 0.125), (1024.0, 1.0 / 64)]
+    scales = [(8.0, 1.0), (2.0 ** -12, 1.0), (1.0, 32.0), (1.0, 2.0 ** -20)] if tier == "quick" else \
+             [(8.0, 1.0), (2.0 ** -12, 1.0), (1.0, 32.0), (1.0, 2.0 ** -20), (0.25, 0.125), (1024.0, 1.0 / 64), (2.0 ** 20, 2.0 ** 20)]
     for e in cat:
         cfgs = pe.configs_for(e, tier, rng, max_alt=1 if tier == "quick" else 3)
         for cfg in cfgs:
@@ -220,22 +226,23 @@ def strategies_part(tier, V, machinery, rng):
         if base is None or base.get("deadlock"):
             machinery.append("%s%s: no result of the unscaled run" % (name, list(cfg)))
             continue
-        bacts = base["outs"][0].get("bits") or []
-        signals += sum(1 for b in bacts if b not in ("0", "0000000000000000"))
+        bacts = [o.get("bits") or [] for o in base["outs"]]       # actions (and, for aux.Outcome entries, the outcome stream: degree 0)
+        signals += sum(1 for b in bacts[0] if b not in ("0", "0000000000000000"))
         for m, r in lst:
             if m[3] == 1.0 and m[4] == 1.0:
                 continue
             if r is None or r.get("deadlock"):
                 machinery.append("%s%s: no result of the scaled run" % (name, list(cfg)))
                 continue
-            acts = r["outs"][0].get("bits") or []
+            acts = [o.get("bits") or [] for o in r["outs"]]
             compared += 1
             if acts != bacts:
-                j = next((i for i, (a, b) in enumerate(zip(bacts, acts)) if a != b), min(len(acts), len(bacts)))
+                oi = next(i for i, (a, b) in enumerate(zip(bacts, acts)) if a != b)
+                j = next((i for i, (a, b) in enumerate(zip(bacts[oi], acts[oi])) if a != b), min(len(acts[oi]), len(bacts[oi])))
                 what = "price" if m[3] != 1.0 and m[4] == 1.0 else "volume" if m[3] == 1.0 else "price and volume"
                 V.violation({"pipe": name, "scaled": what, "symptom": "recommendation-changes"},
-                            "%s%s: the recommendations on the seeded series %d (%d snapshots) change when every %s is multiplied by %s: first "
-                            "difference at snapshot %d" % (name, list(cfg), sd, m[5], what, (m[3], m[4]), j),
+                            "%s%s: the %s on the seeded series %d (%d snapshots) change when every %s is multiplied by %s: first "
+                            "difference at snapshot %d" % (name, list(cfg), "recommendations" if oi == 0 else "outcomes", sd, m[5], what, (m[3], m[4]), j),
                             {"pipe": name, "cfg": list(cfg), "data": {"seed": sd, "round": 2}, "price_scale": m[3], "volume_scale": m[4], "n": m[5]})
     return {"strategy_entries": len(cat), "strategy_runs": len(reqs), "strategy_scaled_comparisons": compared, "non_hold_actions_in_unscaled_runs": signals}
 
